@@ -41,6 +41,7 @@ func init() { hlib.Register("C33", c33) }
 type c33resp struct {
 	net  bool
 	code int
+	h    *c33h // entry 2: the state the real origin is put in before the request; code is then unused
 }
 
 func (r c33resp) coq() string {
@@ -82,7 +83,13 @@ func c33digest(s string) core.Digest {
 	return d
 }
 
-func c33depDigest(id int) core.Digest { return c33digest(fmt.Sprintf("c33 dependency %d", id)) }
+func c33depContent(idx, id int) []byte {
+	return []byte(fmt.Sprintf("c33 dependency %d of case %d", id, idx))
+}
+
+// the dependency blobs are real blobs (entry 2 stores them in a real CAStore); digests are
+// per case so that nothing cached by an origin for one case is seen by another
+func c33depDigest(idx, id int) core.Digest { return c33digest(string(c33depContent(idx, id))) }
 
 var c33tagDigest = c33digest("c33 tag manifest")
 
@@ -91,6 +98,7 @@ var c33tagDigest = c33digest("c33 tag manifest")
 type c33rec struct {
 	mu     sync.Mutex
 	c      *c33case
+	idx    int
 	tag    string
 	remote string
 	pos    int   // index of the dependency being replicated (-1 before the first resolve)
@@ -100,10 +108,10 @@ type c33rec struct {
 	nrepl  int
 }
 
-func (r *c33rec) reset(c *c33case, tag, remote string) {
+func (r *c33rec) reset(c *c33case, idx int, tag, remote string) {
 	r.mu.Lock()
 	defer r.mu.Unlock()
-	r.c, r.tag, r.remote = c, tag, remote
+	r.c, r.idx, r.tag, r.remote = c, idx, tag, remote
 	r.pos = -1
 	r.cnt = nil
 	r.evs = nil
@@ -118,15 +126,6 @@ func (r *c33rec) add(kind, s string) {
 
 func (r *c33rec) bad(k int) {
 	r.add("EBad", fmt.Sprintf("EBad %d", k))
-}
-
-func c33depID(d core.Digest) int {
-	for id := 0; id < 8; id++ {
-		if c33depDigest(id) == d {
-			return id
-		}
-	}
-	return 99
 }
 
 // has / origin / put: the answer is fixed by the case
@@ -161,7 +160,7 @@ func (r *c33rec) resolve(d core.Digest) (*c33dep, bool) {
 	r.mu.Lock()
 	defer r.mu.Unlock()
 	r.pos++
-	if r.pos >= len(r.c.deps) || c33depDigest(r.c.deps[r.pos].id) != d {
+	if r.pos >= len(r.c.deps) || c33depDigest(r.idx, r.c.deps[r.pos].id) != d {
 		r.bad(3)
 		r.pos = len(r.c.deps) // nothing matches any more
 		return nil, false
@@ -176,14 +175,15 @@ func (r *c33rec) resolve(d core.Digest) (*c33dep, bool) {
 	return de, ok
 }
 
-// one replicate request at origin o
-func (r *c33rec) repl(o int, ns string, d core.Digest, remote string) c33resp {
+// one replicate request at origin o: the scripted answer, and the function that records the
+// answer actually given (entries 0 and 1 give the scripted one)
+func (r *c33rec) replBegin(o int, ns string, d core.Digest, remote string) (c33resp, func(c33resp)) {
 	r.mu.Lock()
 	defer r.mu.Unlock()
 	if r.pos < 0 || r.pos >= len(r.c.deps) || ns != r.tag || remote != r.remote ||
-		c33depDigest(r.c.deps[r.pos].id) != d || o >= len(r.c.deps[r.pos].origins) {
+		c33depDigest(r.idx, r.c.deps[r.pos].id) != d || o >= len(r.c.deps[r.pos].origins) {
 		r.bad(4)
-		return c33resp{code: 200}
+		return c33resp{code: 200}, func(c33resp) {}
 	}
 	de := &r.c.deps[r.pos]
 	k := r.cnt[o]
@@ -193,8 +193,23 @@ func (r *c33rec) repl(o int, ns string, d core.Digest, remote string) c33resp {
 		resp = de.origins[o].script[k]
 	}
 	r.nrepl++
-	r.add("ERepl", fmt.Sprintf("ERepl %d %d %s", de.id, o, resp.coq()))
+	return resp, func(actual c33resp) {
+		r.mu.Lock()
+		defer r.mu.Unlock()
+		r.add("ERepl", fmt.Sprintf("ERepl %d %d %s", de.id, o, actual.coq()))
+	}
+}
+
+func (r *c33rec) repl(o int, ns string, d core.Digest, remote string) c33resp {
+	resp, record := r.replBegin(o, ns, d, remote)
+	record(resp)
 	return resp
+}
+
+func (r *c33rec) badLocked(k int) {
+	r.mu.Lock()
+	defer r.mu.Unlock()
+	r.bad(k)
 }
 
 // ---- entry 0: httptest environment owned by one worker
@@ -204,6 +219,7 @@ type c33http struct {
 	tagSrv  *httptest.Server
 	cluSrv  *httptest.Server
 	origins []*httptest.Server
+	real    []*c33blobsrv // entry 2: the real blobserver behind each origin listener
 	exec    *tagreplication.Executor
 }
 
@@ -236,8 +252,8 @@ func c33answer(w http.ResponseWriter, resp c33resp, body string) {
 
 const c33maxOrigins = 3
 
-func newC33http() *c33http {
-	e := &c33http{rec: &c33rec{}}
+func newC33http(real []*c33blobsrv) *c33http {
+	e := &c33http{rec: &c33rec{}, real: real}
 	e.tagSrv = c33serve(func(w http.ResponseWriter, q *http.Request) {
 		p := q.URL.EscapedPath()
 		switch {
@@ -291,7 +307,17 @@ func newC33http() *c33http {
 				w.WriteHeader(500)
 				return
 			}
-			c33answer(w, e.rec.repl(i, ns, d, remote), "")
+			if e.real == nil {
+				c33answer(w, e.rec.repl(i, ns, d, remote), "")
+				return
+			}
+			resp, record := e.rec.replBegin(i, ns, d, remote)
+			if resp.net || resp.h == nil {
+				record(c33resp{net: true})
+				c33answer(w, c33resp{net: true}, "")
+				return
+			}
+			e.real[i].serve(w, q, e.rec, d, resp.h, record)
 		}))
 	}
 	e.cluSrv = c33serve(func(w http.ResponseWriter, q *http.Request) {
@@ -355,12 +381,15 @@ func (e *c33http) close() {
 	for _, o := range e.origins {
 		o.Close()
 	}
+	for _, b := range e.real {
+		b.close()
+	}
 }
 
-func c33task(c *c33case, tag, dest string) *tagreplication.Task {
+func c33task(c *c33case, idx int, tag, dest string) *tagreplication.Task {
 	var deps core.DigestList
 	for _, de := range c.deps {
-		deps = append(deps, c33depDigest(de.id))
+		deps = append(deps, c33depDigest(idx, de.id))
 	}
 	return tagreplication.NewTask(tag, c33tagDigest, deps, dest, 0)
 }
@@ -368,8 +397,11 @@ func c33task(c *c33case, tag, dest string) *tagreplication.Task {
 func (e *c33http) run(c *c33case, idx int) (bool, []string, []string, int) {
 	tag := fmt.Sprintf("verif/c33 img:%d", idx) // needs path escaping
 	remote := fmt.Sprintf("remote-origin-%d.example:8080", idx)
-	e.rec.reset(c, tag, remote)
-	err := e.exec.Exec(c33task(c, tag, c33addr(e.tagSrv)))
+	e.rec.reset(c, idx, tag, remote)
+	err := e.exec.Exec(c33task(c, idx, tag, c33addr(e.tagSrv)))
+	for _, b := range e.real {
+		b.endCase()
+	}
 	e.rec.mu.Lock()
 	defer e.rec.mu.Unlock()
 	return err == nil, e.rec.evs, e.rec.hist, e.rec.nrepl
@@ -483,11 +515,11 @@ func (c *c33fakeCluster) ReplicateToRemote(ns string, d core.Digest, remote stri
 func c33runPoll(c *c33case, idx int) (bool, []string, []string, int) {
 	rec := &c33rec{}
 	tag := fmt.Sprintf("verif/c33 img:%d", idx)
-	rec.reset(c, tag, fmt.Sprintf("remote-origin-%d.example:8080", idx))
+	rec.reset(c, idx, tag, fmt.Sprintf("remote-origin-%d.example:8080", idx))
 	res := &c33fakeResolver{rec: rec}
 	ex := tagreplication.NewExecutor(tally.NoopScope, &c33fakeCluster{res: res},
 		c33fakeProvider{&c33fakeTag{rec: rec}})
-	err := ex.Exec(c33task(c, tag, "remote-build-index:80"))
+	err := ex.Exec(c33task(c, idx, tag, "remote-build-index:80"))
 	return err == nil, rec.evs, rec.hist, rec.nrepl
 }
 
@@ -500,9 +532,17 @@ func (c *c33case) coqEnv() string {
 		for _, o := range de.origins {
 			var sc []string
 			for _, r := range o.script {
-				sc = append(sc, r.coq())
+				if c.entry == 2 {
+					sc = append(sc, r.h.coq())
+				} else {
+					sc = append(sc, r.coq())
+				}
 			}
-			os = append(os, fmt.Sprintf("O %s %d", hlib.List(sc), o.budget))
+			if c.entry == 2 {
+				os = append(os, fmt.Sprintf("O (served %s) %d", hlib.List(sc), o.budget))
+			} else {
+				os = append(os, fmt.Sprintf("O %s %d", hlib.List(sc), o.budget))
+			}
 		}
 		ok := de.resolve
 		if c.entry != 1 && len(de.origins) == 0 {
@@ -839,11 +879,11 @@ func c33(ctx *hlib.Ctx) {
 	close(jobs)
 	var wg sync.WaitGroup
 	for w := 0; w < nw; w++ {
+		w := w
 		wg.Add(1)
 		go func() {
 			defer wg.Done()
-			var env *c33http
-			var srv *c33server
+			var env, srv *c33http
 			for i := range jobs {
 				c := &cases[i]
 				done := make(chan c33out, 1)
@@ -852,16 +892,16 @@ func c33(ctx *hlib.Ctx) {
 					switch c.entry {
 					case 0:
 						if env == nil {
-							env = newC33http()
+							env = newC33http(nil)
 						}
 						o.ok, o.evs, o.hist, o.nrepl = env.run(c, i)
 					case 1:
 						o.ok, o.evs, o.hist, o.nrepl = c33runPoll(c, i)
 					case 2:
 						if srv == nil {
-							srv = newC33server(ctx)
+							srv = newC33http(newC33blobsrvs(ctx, w))
 						}
-						o = srv.run(c, i)
+						o.ok, o.evs, o.hist, o.nrepl = srv.run(c, i)
 					}
 					done <- o
 				}()
